@@ -50,7 +50,7 @@ def ref_terms(spec, refvals: dict) -> dict:
             D = it["wdist"]
             p = {k: rv(r) for k, r in D["args"].items()}
             lp = R.logpdf(D["fam"], np64(refvals[it["name"]]), p)
-            terms.append({"name": it["wrap"], "kind": "weak-var", "role": None, "lp": np.asarray(lp), "per_obs": D.get("per_obs", True)})
+            terms.append({"name": it["wrap"], "kind": "weak-var", "role": D.get("role"), "lp": np.asarray(lp), "per_obs": D.get("per_obs", True)})
         elif it["k"] == "baredist":
             D = it["dist"]
             p = {k: rv(r) for k, r in D["args"].items()}
